@@ -104,6 +104,19 @@ PRODUCERS = {
     fault(3)
 it = P()
 ''', ('int', 'str', 'pair'), (0, 1, 2, 3)),
+    # iter(callable, sentinel): the callable moves past the sentinel, so an iterator that does not stay exhausted is seen afterwards
+    'callable-iter': ('''CNT = [0]
+def nxt():
+    i = CNT[0]
+    print("p", i)
+    CNT[0] = i + 1
+    fault(i)
+    if i == 3:
+        print("p", "end")
+        return NOTIN
+    return el(i % 3)
+it = iter(nxt, NOTIN)
+''', ('int', 'str'), (0, 1, 2, 3)),
     'genexp': ('''def st(i):
     print("p", i)
     fault(i)
@@ -208,6 +221,8 @@ CONSUMERS = {
     'sum': ('print("v", sum(it))\n', ('int',), 'builtin'),
     'min': ('print("v", min(it))\n', ('int', 'str'), 'builtin'),
     'max': ('print("v", max(it))\n', ('int', 'str'), 'builtin'),
+    'max-default': ('print("v", max(it, default=el(5)))\n', ('int', 'str'), 'builtin'),
+    'min-default': ('print("v", min(it, default=DFLT))\n', ('int', 'str'), 'builtin'),
     'sorted': ('show(sorted(it))\n', ('int', 'str'), 'builtin'),
     'zip-first': ('drive(zip(it, [10, 20, 30, 40]), pz)\n', ANY, 'builtin'),
     'zip-second': ('drive(zip([10, 20], it), pz2)\n', ANY, 'builtin'),
